@@ -76,12 +76,25 @@ def canon(run, before):
     old_ids |= {(st['owner'], st['sid'], t['id']) for t in st['trials']}
   final = copy.deepcopy(run['final'])
   ren = {}
+  # the trials created during the run, wherever they are still visible: in the final state, or - when their study
+  # was deleted during the run - only in the responses (trials handed out / created carry their parameter token)
+  newp = {}
   for st in final['studies']:
     key = (st['owner'], st['sid'])
-    new = [t for t in st['trials'] if (key[0], key[1], t['id']) not in old_ids]
+    for t in st['trials']:
+      if (key[0], key[1], t['id']) not in old_ids:
+        newp.setdefault(key, {})[t['id']] = t['params']
+  for r in run['resps']:
+    if isinstance(r, dict):
+      key = ('o', 's')
+      seen = list(r.get('handed', [])) if r.get('k') == 'op' else ([r['v']] if (r.get('k') == 'trial' and isinstance(r.get('v'), dict)) else [])
+      for t in seen:
+        if isinstance(t, dict) and 'id' in t and 'params' in t and (key[0], key[1], t['id']) not in old_ids:
+          newp.setdefault(key, {}).setdefault(t['id'], t['params'])
+  for key, d in newp.items():
     base = max([i for (o, s, i) in old_ids if (o, s) == key] + [0])
-    for j, t in enumerate(sorted(new, key=lambda t: t['params'])):
-      ren[(key, t['id'])] = base + 1 + j
+    for j, (tid, _) in enumerate(sorted(d.items(), key=lambda kv: (kv[1], kv[0]))):
+      ren[(key, tid)] = base + 1 + j
   def rid(key, i):
     return ren.get((key, i), i)
   for st in final['studies']:
